@@ -317,6 +317,44 @@ def tab_run(ctx, stops, x, columns=None):
     return eng, res, cols
 
 
+def every_8th(eng, st, ops):
+    """do these adaptors select, from a range that starts at 8, exactly the multiples of 8?  `step_by(8)`, or a single
+    `filter` whose predicate - evaluated on an arbitrary element c - is `c % 8 == 0`"""
+    if len(ops) != 1:
+        return False
+    name, arg = ops[0][0], (ops[0][1] if len(ops[0]) > 1 else None)
+    if name == 'step_by':
+        return isinstance(arg, NumV) and arg.sym is None and arg.k == 8
+    if name != 'filter' or arg is None:
+        return False
+    s2 = st.fork()
+    c = eng.fresh_num(s2, 'u32', name='stop')
+    root = ('H', 'probe-stop')
+    s2.store[root] = c
+    hooks, eng.hooks = eng.hooks, []
+    eng.probing += 1
+    try:
+        res = eng.call_value(s2, arg, [RefV((root, ()))], 0)
+    except Exception:
+        return False
+    finally:
+        eng.probing -= 1
+        eng.hooks = hooks
+    if not res:
+        return False
+    for (s3, r) in res:
+        a = r.atom if isinstance(r, BoolV) else None
+        if not (a and a[0] == 'cmp' and a[1] == 'eq' and isinstance(a[2], NumV) and isinstance(a[3], NumV)):
+            return False
+        x, z = (a[2], a[3]) if a[3].sym is None else (a[3], a[2])
+        if not (z.sym is None and z.k == 0 and x.sym is not None and x.k == 0):
+            return False
+        rem = s3.vn.get(('Rem', c.key(), NumV(None, 8, 'u32').key()))
+        if not (isinstance(rem, NumV) and rem.sym == x.sym):
+            return False
+    return True
+
+
 def reset_stops_loop(ctx, sr, eng, f, st, evs, clear_idx):
     """the default stops installed by a loop: after the clear, exactly one loop of reset inserts into
     the stop set; it iterates (8..columns).step_by(8), can only be left when the iterator is exhausted,
@@ -418,7 +456,7 @@ def run_c18(ctx, chk):
             r_ = g.collected_range(repl[-1][2])
             cols = get(eng, st, 'columns')
             okc = r_ is not None and r_[0].sym is None and r_[0].k == 8 and eng.prove_cmp(st, 'eq', r_[1], cols) is True and not r_[2] and \
-                len(r_[3]) == 1 and r_[3][0][0] == 'step_by' and isinstance(r_[3][0][1], NumV) and r_[3][0][1].sym is None and r_[3][0][1].k == 8
+                every_8th(eng, st, r_[3])
             if not okc:
                 bad.append('the stop set is replaced by %r (documented: every 8th column 8, 16, .. < columns)' % (repl[-1][2],))
             continue
